@@ -138,14 +138,25 @@ class ContextRecorder:
         self.depth = 0               # nesting of public render calls (only the outermost one opens a trace)
         self.label = ""
 
+    @staticmethod
+    def _owner():
+        import asyncio
+        try:
+            t = asyncio.current_task()
+        except RuntimeError:
+            t = None
+        return (threading.get_ident(), id(t) if t is not None else 0)
+
     def begin(self, template):
         self.depth += 1
         if self.depth > 1:
+            if self.cur is not None and self._owner() != self.cur["_owner"]:
+                self.cur["_mixed"] = True      # another task / thread renders at the same time: events would interleave
             return
         env = template.env
         lim = lambda v: -1 if v is None else int(v)
-        self.cur = {"N": lim(env.loop_iteration_limit), "L": lim(env.output_stream_limit), "mode": str(env.mode).split(".")[-1].lower(),
-                    "label": self.label, "ev": [], "_ctx": {}, "_buf": {}}
+        self.cur = {"N": lim(env.loop_iteration_limit), "L": lim(env.output_stream_limit), "mode": env.mode.name.lower(),
+                    "label": self.label, "ev": [], "_ctx": {}, "_buf": {}, "_owner": self._owner(), "_mixed": False}
 
     def end(self, status):
         self.depth -= 1
@@ -153,19 +164,28 @@ class ContextRecorder:
             self.ev("End", o=status)
             t = self.cur
             self.cur = None
-            t.pop("_ctx"); t.pop("_buf")
-            if len(t["ev"]) < 4000:          # very long renders (performance tests) are not validated
+            t.pop("_ctx"); t.pop("_buf"); t.pop("_owner")
+            mixed = t.pop("_mixed")
+            if len(t["ev"]) < 4000 and not mixed:          # very long renders (performance tests) and interleaved renders are not validated
                 self.traces.append(t)
+            else:
+                self.dropped = getattr(self, "dropped", 0) + 1
 
     def cid(self, ctx):
         m = self.cur["_ctx"]
-        return m.setdefault(id(ctx), len(m) + 1)
+        if id(ctx) not in m:
+            m[id(ctx)] = (len(m) + 1, ctx)        # the object is kept alive for the trace: id() values are not reused
+        return m[id(ctx)][0]
 
     def bid(self, buf):
         m = self.cur["_buf"]
-        return m.setdefault(id(buf), len(m) + 1)
+        if id(buf) not in m:
+            m[id(buf)] = (len(m) + 1, buf)
+        return m[id(buf)][0]
 
     def ev(self, e, c=0, n=0, f=False, o="", b=0, p=0):
+        if self.cur is not None and self._owner() != self.cur["_owner"]:
+            self.cur["_mixed"] = True
         if self.cur is not None:
             self.cur["ev"].append({"e": e, "c": c, "n": int(n), "f": bool(f), "o": o, "b": b, "p": p})
 
